@@ -72,8 +72,8 @@ CLAIMS = {
             "also on a 264-bit type), DER (canonical INTEGER TLV, value_len) for ALL values at widths "
             "{0,1,7,8,16,60,64,65,72,128}; serde binary form (capturing Serializer + binary visitor), primitive-types "
             "U128/U256/H128/H256, bytemuck Pod/Zeroable, postgres to_sql->from_sql for BOOL/INT2/4/8/OID/MONEY/BYTEA/"
-            "BIT/VARBIT at 16 bits (thorough 8, 65); rlp crate at 8/16 bits (thorough).",
-            "Not claimed: serde human-readable serialisation and postgres text/JSON encodings (format!), postgres "
+            "BIT/VARBIT at 16 bits (thorough 8, 65).",
+            "Not claimed: the rlp crate's encoder (RlpStream does not finish), serde human-readable serialisation and postgres text/JSON encodings (format!), postgres "
             "NUMERIC (round trip undecided in 500 s), num-bigint, ark-ff, the 55-byte RLP and 536-bit compact limits "
             "(width too large for the budget)."),
     "C18": ("5/C18",
